@@ -125,6 +125,8 @@ def random_tree(r, kind='html', max_nodes=7):
 
     def make(depth):
         el = soup.new_tag(r.choice(['a', 'b', 'a', 'b', 'A'] if kind != 'xml' else ['a', 'b', 'A']))
+        if kind == 'xml' and r.random() < 0.3:
+            el.namespace = r.choice(['urn:n', 'urn:n', 'urn:o'])      # same local name and prefix, another element type
         if r.random() < 0.35:
             el.attrs['id'] = r.choice(ids)
         if r.random() < 0.4:
@@ -217,3 +219,22 @@ def twin_tree(r, kind='html'):
         return root, root
     soup.append(root)
     return soup, root
+
+
+def ns_siblings_tree():
+    """XML: same-named siblings (same prefix: none) in three namespaces and in none, nested once."""
+    soup = bs4.BeautifulSoup('', 'xml')
+    root = soup.new_tag('r')
+    soup.append(root)
+    for i, (name, ns) in enumerate([('a', None), ('a', 'urn:n'), ('b', None), ('a', 'urn:o'), ('a', 'urn:n'), ('b', 'urn:n'),
+                                    ('a', None)]):
+        el = soup.new_tag(name)
+        el.namespace = ns
+        el.attrs['id'] = 'i%d' % (i % 3)
+        root.append(el)
+        if i == 1:
+            for ns2 in ('urn:n', None, 'urn:n'):
+                c = soup.new_tag('a')
+                c.namespace = ns2
+                el.append(c)
+    return soup, None
